@@ -138,7 +138,7 @@ pub fn value_to_tokens(value: &ASN1Value) -> Result<String, GeneratorError> {
             }),
         ASN1Value::Boolean(b) => Ok(String::from(if *b { "true" } else { "false" })),
         ASN1Value::Integer(i) => Ok(i.to_string()),
-        ASN1Value::String(s) => Ok(format!(r#""{s}""#)),
+        ASN1Value::String(s) => Ok(string_literal(s)),
         ASN1Value::Real(r) => Ok(r.to_string()),
         ASN1Value::BitStringNamedBits(_) => Err(GeneratorError {
             top_level_declaration: None,
@@ -218,9 +218,25 @@ pub fn value_to_tokens(value: &ASN1Value) -> Result<String, GeneratorError> {
             integer_type: _,
             value,
         } => Ok(value.to_string()),
-        ASN1Value::LinkedCharStringValue(_, value) => Ok(format!(r#""{value}""#)),
+        ASN1Value::LinkedCharStringValue(_, value) => Ok(string_literal(value)),
         ASN1Value::All => todo!(),
     }
+}
+
+/// Renders a character string value as a double-quoted string literal.
+fn string_literal(s: &str) -> String {
+    let mut literal = String::from("\"");
+    for c in s.chars() {
+        match c {
+            '"' => literal.push_str("\\\""),
+            '\\' => literal.push_str("\\\\"),
+            '\n' => literal.push_str("\\n"),
+            '\r' => literal.push_str("\\r"),
+            c => literal.push(c),
+        }
+    }
+    literal.push('"');
+    literal
 }
 
 pub fn format_comments(comments: &str) -> String {
